@@ -328,6 +328,38 @@ func runC19(c *Ctx) {
 							return ok && !isNilConst(r.Results[0])
 						}, nil)
 						c.check(!errAfter && !inLoop(in), "R4", "all-or-nothing swap", pos(in), "the list is replaced once, after validation, with no error return afterwards", "the advertised list is replaced before validation finished: an invalid request changes the configuration")
+						// … and no name that failed validation lets the swap happen: from the failing side of every test of the
+						// lookup's error no path reaches the store (a `continue` past the bad name, with only the last
+						// iteration's error looked at after the loop, swaps the list although the request was invalid)
+						store := in
+						eachInstr(fn, func(x ssa.Instruction) {
+							call, ok := x.(*ssa.Call)
+							if !ok || calleeName(&call.Call) != "getSupportedExtensionByName" {
+								return
+							}
+							for _, r := range *call.Referrers() {
+								ex, ok := r.(*ssa.Extract)
+								if !ok || ex.Index != 1 {
+									continue
+								}
+								tests := nilTests(ex)
+								if len(tests) == 0 {
+									// the error goes into a variable tested elsewhere: follow it through the joins
+									for _, r2 := range *ex.Referrers() {
+										if ph, ok := r2.(*ssa.Phi); ok {
+											tests = append(tests, nilTests(ph)...)
+										}
+									}
+								}
+								reaches := len(tests) == 0
+								for _, nt := range tests {
+									if reachFromNilSide(nt, true, func(y ssa.Instruction) bool { return y == store }, nil) {
+										reaches = true
+									}
+								}
+								c.check(!reaches, "R4", "an invalid name stops the swap", pos(call), "no path from a failed lookup to the replacement of the list", "after a name failed validation the advertised list can still be replaced (the error is only remembered, and overwritten by the next name's): an invalid request changes the configuration")
+							}
+						})
 						// provenance of the new list: fresh base + validated elements
 						fresh, validated := true, true
 						var visit func(v ssa.Value, depth int)
